@@ -308,6 +308,23 @@ def shares_nothing(ip, st, v):
     return False
 
 
+def mark_shallow(st, *refs):
+    """a SHALLOW copy of a nested dictionary (d.copy(), dict(d), copy.copy(d)) is a new top-level object whose nested
+    dictionaries are the very objects of the original.  Nested dictionaries are values in the `Val` model, so an in-place
+    change below the top level made through one of the two would not show in the other: such a change is refused
+    (out-of-subset) instead of being modelled wrongly.  Top-level stores / deletes / flat updates stay exact."""
+    cids = {r.cid for r in refs if isinstance(r, Ref)}
+    if cids:
+        st.notes["shallow_shared"] = set(st.notes.get("shallow_shared", ())) | cids
+
+
+def refuse_nested_change(st, base, what):
+    """see mark_shallow"""
+    if isinstance(base, Ref) and base.cid in st.notes.get("shallow_shared", ()):
+        from .interp import Unsupported
+        raise Unsupported("%s of a dictionary that shares its nested dictionaries with a shallow copy" % what)
+
+
 def note_store(ip, st, base, v):
     """ownership provenance: a deep copy that gets a possibly shared object stored into it is no deep copy any more"""
     if isinstance(base, Ref) and base.cid in st.notes.get("deep_copies", ()) and not shares_nothing(ip, st, v):
@@ -317,6 +334,8 @@ def note_store(ip, st, base, v):
 def val_store(ip, s, base, idx, v):
     cur = ip.deref(s, base)
     need_dict(ip, s, cur, "item-store")
+    if getattr(base, "path", None):
+        refuse_nested_change(s, base, "a store below the top level")
     k = ip.key_term(as_key(ip, s, idx))
     if ip.c is not None and ip.c.ghost.get("dict_objects") and not ip.spec_mode:
         from . import dictobj          # dictionaries as objects: links of the replaced / the stored object (pyvc/dictobj.py)
@@ -341,6 +360,8 @@ def val_store(ip, s, base, idx, v):
 def val_delete(ip, s, base, idx):
     cur = ip.deref(s, base)
     need_dict(ip, s, cur, "item-delete")
+    if getattr(base, "path", None):
+        refuse_nested_change(s, base, "a delete below the top level")
     k = ip.key_term(idx)
     has = T("(vhas %s %s)" % (cur.s, k.s), "Bool")
     if not ip.known(s, has):
@@ -427,6 +448,8 @@ def val_method(ip, st, recv, name, pos, kws):
         if isinstance(recv, Ref) and ip.c is not None and ip.c.ghost.get("dict_objects") and not ip.spec_mode:
             from . import dictobj      # a shallow copy shares its items with the original
             dictobj.shared_items(ip, st, r, recv)
+        elif not ip.spec_mode:
+            mark_shallow(st, r, recv)
         return [(st, r)]
     if name == "pop" and isinstance(recv, Ref):
         need_dict(ip, st, t, "pop")
